@@ -540,6 +540,16 @@ func checkCancel(c CancelCase) error {
 	if r7 := runOn(th, c.Prog, 0, hooks{}); (r7.err != nil) != (base.err != nil) || len(r7.events) != len(base.events) || isCancelled(r7.err, "") {
 		return fmt.Errorf("%s: after the last Uncancel the run differs from the baseline: err=%v (baseline %v), %d effects (baseline %d)", key, r7.err, base.err, len(r7.events), len(base.events))
 	}
+	// an empty reason is a reason: the thread is cancelled, and stays so until reset
+	th.Cancel("")
+	if rE := runOn(th, c.Prog, 0, hooks{}); !isCancelled(rE.err, "") || len(rE.events) != 0 {
+		return fmt.Errorf("%s: Cancel(\"\") then an execution: err=%v, %d effects (expected immediate cancellation)", key, rE.err, len(rE.events))
+	}
+	th.Cancel("reason-LATE")
+	if rE := runOn(th, c.Prog, 0, hooks{}); !isCancelled(rE.err, "") || len(rE.events) != 0 || strings.Contains(rE.err.Error(), "reason-LATE") {
+		return fmt.Errorf("%s: second execution after Cancel(\"\"): err=%v, %d effects", key, rE.err, len(rE.events))
+	}
+	th.Uncancel()
 	// The host calls a built-in directly (no Starlark frame on the thread) and that built-in cancels the thread: the
 	// call itself returns normally, and the cancellation is still in force for the next execution.
 	canceller := starlark.NewBuiltin("cancel_now", func(t *starlark.Thread, _ *starlark.Builtin, _ starlark.Tuple, _ []starlark.Tuple) (starlark.Value, error) {
